@@ -4,4 +4,4 @@ set -e
 cd "$(dirname "$0")/harness"
 export CARGO_NET_OFFLINE=true
 cargo build --offline --release --bins 2>&1 | tail -3
-cargo build --offline --profile dbgchk --bin c08_child 2>&1 | tail -3
+cargo build --offline --profile dbgchk --bin c08_child --bin vcheck --bin c16_scopes 2>&1 | tail -3
